@@ -190,13 +190,40 @@ Print Assumptions C07_parse_of_generated_statement.
 (* generator side: _generate_stmt(add_indent=True) prints [gst rp lv x] at indentation level lv and restores the level *)
 Theorem C07_generator_prints_statement : forall (C: Type) rp (x: st), swf x -> forall fuel lv, (cost x < fuel)%nat ->
   generate_stmt C rp fuel (embS C x) true lv = GOk (gst rp lv x, lv).
-Proof. exact gst_prints. Qed.
+Proof. exact gst_prints_nodecl. Qed.
 Print Assumptions C07_generator_prints_statement.
 
 (* ... and that text, blanks and newlines removed, is the concatenation of the spellings of [stoks rp x] *)
 Theorem C07_statement_text_is_its_tokens : forall rp (x: st), sexprs (eok rp) x -> forall lv, despace2 (gst rp lv x) = spell (stoks rp x).
 Proof. exact gst_tokens. Qed.
 Print Assumptions C07_statement_text_is_its_tokens.
+
+(* ... WITH DECLARATIONS: blocks, at any nesting depth, may contain the declarations `T x;` and `T x = e;` as block items (T a run of
+   simple type-specifier keywords, e any expression of the language - CGenerator prints a comma expression in parentheses).
+   Parser side (proofs/DeclTrip.v, StmtTrip.v): from every parser state whose scope stack holds no typedef name, p_statement parses
+   [stoks rp x] back to exactly x - p_declaration_specifiers, the speculative declarator scan with its reset, p_declarator,
+   p_initializer, _build_declarations / _fix_decl_name_type and the scope update are all walked through - and the scope stack
+   is again free of typedef names afterwards.  Generator side (GenStmt.v): visit_Decl / _generate_decl / _generate_type print
+   `T x = e`, _generate_stmt adds `;`. *)
+Theorem C07_parse_of_generated_statement_with_declarations : forall (P: Type) rp (x: st), swfD x ->
+  forall (s: ParserBase.pstate P) le stop l0, Spell P le (stoks rp x) -> Up P s (le ++ stop :: l0) ->
+  (sopen x = true -> kind_eqb (tk stop) K_ELSE = false) -> NoTD (ParserBase.scopes P s) ->
+  exists f0 N s', (forall f, (f0 <= f)%nat -> p_statement P f s = Ok (N, s')) /\ Up P s' (stop :: l0) /\ strip N = embs x /\
+    NoTD (ParserBase.scopes P s').
+Proof. exact parse_of_generated_statement_with_decls. Qed.
+Print Assumptions C07_parse_of_generated_statement_with_declarations.
+
+Theorem C07_generator_prints_statement_with_declarations : forall (C: Type) rp (x: st), swfD x -> forall fuel lv, (cost x < fuel)%nat ->
+  generate_stmt C rp fuel (embS C x) true lv = GOk (gst rp lv x, lv).
+Proof. exact gst_prints_decls. Qed.
+Print Assumptions C07_generator_prints_statement_with_declarations.
+
+(* non-vacuity, both sides on one program: `{ int x = 1; unsigned long y; y = x + 2; { char c = (x, y); } }` is printed like this by the
+   generator model, the text is the concatenation of its tokens, and the whole-parser model started on these tokens returns the tree *)
+Example C07_declaration_example :
+  swfD ex_d /\ (exists t, generate_stmt nat false 80 (embS nat ex_d) true Z0 = GOk (t, Z0) /\ despace2 t = spell (stoks false ex_d)) /\
+  match p_statement nat 100 ex_d_state with Ok (N, s') => strip N = embs ex_d | _ => False end.
+Proof. exact decl_example_both. Qed.
 
 (* non-vacuity: a for loop whose body is a block with an if / else-if ladder (return, break), a do-while over a nested block
    with an empty block inside, and a goto *)
